@@ -236,3 +236,19 @@ pub fn file_refs(db: &DbIndex, file_id: FileId) -> usize {
 pub fn module_tree_defects(db: &DbIndex) -> Vec<String> {
     db.get_module_index().verif_tree_defects()
 }
+
+// ---------------------------------------------------------------------------------------------
+// external process seam: `PreProcessContext::new` asks an external `luarocks` binary for its deploy
+// directory on every configuration load (a fork per call, and an answer the harness does not own).
+// A harness that explores schedules of the server installs a fixed answer instead.
+
+static LUAROCKS_DEPLOY_DIR: std::sync::RwLock<Option<String>> = std::sync::RwLock::new(None);
+
+/// Fix the answer of the `luarocks config deploy_lua_dir` lookup for this process (`None` = ask the binary).
+pub fn set_luarocks_deploy_dir_override(dir: Option<String>) {
+    *LUAROCKS_DEPLOY_DIR.write().unwrap() = dir;
+}
+
+pub fn luarocks_deploy_dir_override() -> Option<String> {
+    LUAROCKS_DEPLOY_DIR.read().unwrap().clone()
+}
